@@ -22,6 +22,7 @@ func init() {
 			{"C02.R4", "q", "hint shorter than data ⇒ rebuild from the covered offset, fail-stop", c02r4},
 			{"C02.R5", "q", "hint replay: set live, remove tombstones", c02r5},
 			{"C02.R6", "q", "hintMgr.close dumps every chunk's last split", c02r6},
+			{"C14.R7", "q", "shared: a split's recorded data size covers only accepted records", c14r7},
 		},
 	})
 }
